@@ -19,6 +19,7 @@ META = {
     "not_decided": ["frame condition inside serde_json::Value::pointer_mut"],
 }
 META["explanation"] += " R1 also: an untranslatable path yields None (the lookup's argument is the converter's Ok payload, never a default). R6 every RFC 9535 Normalized Path (indices within I-JSON) is accepted by the parser: language inclusion on the automata of the grammar analysis."
+META["explanation"] += ' R3 also rejects escaping steps in the wrong order, through helper functions. R7 the path printer (Pointer::key) and the converter agree on whether member names are escaped.'
 
 QT = "crate::query::queryable::Queryable"
 VAL = "serde_json::value::Value"
